@@ -49,12 +49,11 @@ Definition honb (h : handler) : bool := nth (hidx h) (d_hon x) false.
 Definition is_step_event (e : event2) : bool :=
   match e with E2Start _ _ | E2End _ _ _ | E2Refused _ _ => true | _ => false end.
 Definition is_handler_event (e : event2) : bool :=
-  match e with E2HStart _ _ | E2HEnd _ _ _ | E2HRefused _ _ => true | _ => false end.
+  match e with E2HStart _ _ | E2HEnd _ _ _ => true | _ => false end.
 Fixpoint hstarted (tr : list event2) : list handler :=
   match tr with
   | [] => []
   | E2HStart h _ :: t => h :: hstarted t
-  | E2HRefused h _ :: t => h :: hstarted t      (* chosen, but its command refused to start *)
   | _ :: t => hstarted t
   end.
 Fixpoint no_step_after_handler (seen : bool) (tr : list event2) : bool :=
